@@ -739,6 +739,65 @@ pub struct RtCase {
     pub seed: u64,
 }
 
+/// Value-level round trip of the multistream-select messages through the library's own encoder and decoder, with
+/// protocol names of every length from 1 to 200 bytes (the length prefix of a name inside an `ls` response is itself a
+/// byte that may look like the start of another message: 46 + 1 = 0x2f = '/').
+#[derive(Debug, Clone, Serialize, Deserialize)]
+pub struct MsRtCase {
+    /// 0 header, 1 protocol, 2 ls, 3 na, 4.. an `ls` response
+    pub kind: u8,
+    /// lengths of the names (the first is used for a single protocol)
+    pub lens: Vec<u8>,
+    pub seed: u64,
+}
+
+fn ms_rt_strategy() -> impl Strategy<Value = MsRtCase> {
+    (0u8..10, prop::collection::vec(prop_oneof![3 => 1u8..=200, 1 => prop_oneof![Just(45u8), Just(46), Just(47), Just(126), Just(127), Just(128)]], 1..5), any::<u64>())
+        .prop_map(|(kind, lens, seed)| MsRtCase { kind, lens, seed })
+}
+
+fn run_ms_rt(c: &MsRtCase) -> CaseResult {
+    let mut r = SplitMix(c.seed);
+    let mut name = |len: u8| {
+        let mut s = String::from("/");
+        for _ in 1..len.max(1) {
+            s.push(match r.below(40) {
+                0 => '/',
+                1 => '.',
+                2 => '-',
+                3..=12 => (b'0' + r.below(10) as u8) as char,
+                _ => (b'a' + r.below(26) as u8) as char,
+            });
+        }
+        s
+    };
+    let names: Vec<String> = c.lens.iter().map(|l| name(*l)).collect();
+    let proto = |s: &String| ms::Protocol::try_from(s.as_bytes()).map_err(|e| CaseFail::new("C19/harness-name-rejected", format!("{s}: {e:?}")));
+    let m = match c.kind {
+        0 => ms::Message::Header(ms::HeaderLine::V1),
+        1 => ms::Message::Protocol(proto(&names[0])?),
+        2 => ms::Message::ListProtocols,
+        3 => ms::Message::NotAvailable,
+        _ => ms::Message::Protocols(names.iter().map(&proto).collect::<Result<Vec<_>, _>>()?),
+    };
+    let mut b = BytesMut::new();
+    m.encode(&mut b).map_err(|e| CaseFail::new("C19/own-encoder-failed", format!("{m:?}: {e:?}")))?;
+    let decoded = ms::Message::decode(b.clone().freeze());
+    ensure!(
+        decoded.as_ref().ok() == Some(&m),
+        "C19/multistream-message-roundtrip-differs",
+        "encoded {:?} (name lengths {:?}); {} bytes starting {:?}; decoded {:?}",
+        m,
+        c.lens,
+        b.len(),
+        &b[..b.len().min(8)],
+        decoded
+    );
+    Ok(CaseOk::nontrivial()
+        .class(match c.kind { 0 => "header", 1 => "protocol", 2 => "ls", 3 => "na", _ => "ls-response" })
+        .class_if(c.kind >= 4 && c.lens[0] == 46, "ls-response-whose-first-length-prefix-is-a-slash"))
+}
+
 fn rt_strategy() -> impl Strategy<Value = RtCase> {
     (prop::sample::select(TARGETS.to_vec()), any::<u64>()).prop_map(|(target, seed)| RtCase { target, seed })
 }
@@ -993,6 +1052,7 @@ pub fn run(ctx: &mut Ctx) {
     let t = ctx.tier;
     ctx.campaign("decoders", CampaignCfg::new(t.pick(300_000, 8_000_000)).shards(16), strategy, run_case);
     ctx.campaign("roundtrip-truncate", CampaignCfg::new(t.pick(6_000, 200_000)).shards(16), rt_strategy, run_rt);
+    ctx.campaign("multistream-roundtrip", CampaignCfg::new(t.pick(20_000, 1_000_000)).shards(16), ms_rt_strategy, run_ms_rt);
     ctx.campaign("streams", CampaignCfg::new(t.pick(6_000, 200_000)).shards(16), stream_strategy, run_stream);
     ctx.campaign("raw-sockets", CampaignCfg::new(t.pick(1_200, 25_000)).shards(16).shrink_iters(8), super::c19_raw::strategy, super::c19_raw::run_case);
     ctx.campaign("rogue-peer", CampaignCfg::new(t.pick(1_600, 40_000)).shards(16).shrink_iters(8), super::c19_rogue::strategy, super::c19_rogue::run_case);
